@@ -20,7 +20,7 @@ func init() {
 	run.Register(&run.Property{
 		ID:    "C17",
 		Title: "Densify, Simplify, Interpolate, SnapToGrid, Reverse, ForceCW/CCW keep contracts",
-		Rule: "cases = valid lineal/areal geometries (all coordinate types, repeated consecutive vertices at start/middle/end, closed rings, zero-length leading segments) on the integer lattice and in general-position floats with d in diameter x {1e-3..10}, t in [0, diameter], f over [-1,2] incl. 0, 1, the cumulative-length breakpoints and their neighbours, n in 0..50; and SnapToGrid sweeps of decimal places -320..320 against ordinates {0, +-1, +-0.5, +-1e-300, +-1e300, +-(2^52+0.5), ...}. " +
+		Rule: "[added in rounds 9-11: orient-collinear: rings with extra collinear/repeated control points from every start vertex; interp-zm judged against the vertex cluster at that arc length] cases = valid lineal/areal geometries (all coordinate types, repeated consecutive vertices at start/middle/end, closed rings, zero-length leading segments) on the integer lattice and in general-position floats with d in diameter x {1e-3..10}, t in [0, diameter], f over [-1,2] incl. 0, 1, the cumulative-length breakpoints and their neighbours, n in 0..50; and SnapToGrid sweeps of decimal places -320..320 against ordinates {0, +-1, +-0.5, +-1e-300, +-1e300, +-(2^52+0.5), ...}. " +
 			"non-trivial = geometry with >= 3 vertices, or a snap evaluation with a non-zero ordinate; distinct by (WKB, parameters)",
 		Assumptions: []string{"tolerances 1e-9*M for positions, (1+1e-12) relative for gap lengths and half-steps, fixed in DESIGN.md",
 			"Simplify: some embedding of the result as a subsequence must satisfy the distance bound (vertex lists may contain duplicates)"},
